@@ -1451,6 +1451,10 @@ def seq_getitem(eng, seq, idx):
 
 
 def slist_getitem(eng, lst, idx):
+    if isinstance(idx, slice) and idx.start is None and idx.stop is None and idx.step == -1:
+        # lst [::-1]: the reversed list (same model as reversed ())
+        r = b_reversed(eng, [lst], {})
+        return SList([('conc', r)]) if isinstance(r, list) else SList([('seq', r)])
     if isinstance(idx, slice):
         if idx.step is not None or len(lst.chunks) != 1 or lst.chunks[0][0] != 'seq':
             raise EngineError('slice form of a symbolic list not modelled')
